@@ -432,7 +432,7 @@ Proof.
       + eapply accounting_b. exact NR.
     - destruct S as [-> G]. rewrite G. reflexivity.
     - contradiction. }
-  destruct dh; cbn [parse_depth depth_asked bind]; try reflexivity; apply B.
+  destruct dh; cbn [parse_depth depth_asked bind is_infcase]; try reflexivity; apply B.
 Qed.
 
 Theorem principal_meets_spec : forall cup homesets path ct bd dh,
@@ -460,5 +460,5 @@ Proof.
       + eapply accounting_b. exact NR.
     - destruct A as [_ FN]. apply form_of_none in FN. congruence.
     - contradiction. }
-  destruct dh; cbn [parse_depth depth_asked bind]; try reflexivity; exact B.
+  destruct dh; cbn [parse_depth depth_asked bind is_infcase]; try reflexivity; exact B.
 Qed.
